@@ -17,6 +17,18 @@ CHECKS = {
    text="Real XR reconciler (production wiring) over the simulated API server: generated 1-4 step pipelines of scripted gRPC functions (errors, fatal results, requirements that never stabilise) after an initial composition and a perturbed observed state; oracle over the write log: failing pipelines write nothing on composed kinds and leave resourceRefs untouched, successful ones delete exactly observed-minus-desired (reference fold of the scripted steps); P&T template loss/rename likewise. Held on the generated cases.",
    note="Trusted: " + SIM + "; the reference fold of scripted step add/del sets; requirement rounds scripted per reconcile.",
    technique="runtime monitoring: write-log oracle (set equation deleted == observed minus desired) over generated pipelines", ref="3/C03"),
+ "C12": dict(cat="fault_enumeration",
+   text="Real Composition revision controller over sim driven through edit histories (reverts, label/annotation-only edits, stripped owner references, delete-and-restore, foreign revisions): for 17 fixed histories plus seeded random ones, every API-call index of every reconcile x 6 fault outcomes, retries, then the rest of the history; a post-write hook judges spec immutability, number monotonicity and uniqueness per content on every store state; exactly-one / highest-number after every completed fault-free reconcile; the real APIRevisionFetcher for Manual/Automatic(+selector) XRs against the revisions actually produced.",
+   note="Trusted: " + SIM + "; content identity is the generator's content index; the XR side calls Fetch directly, not the whole XR reconciler.",
+   technique="runtime monitoring: post-write invariant hook + fault enumeration over edit histories", ref="3/C12"),
+ "C13": dict(cat="exploration",
+   text="Real ControllerEngine, StoppableSource, InformerTrackingCache and watch GarbageCollector with fakes only at the edges: (a) thousands of short concurrent histories from 16-64 goroutines under the Go race detector, call/return recorded at the caller, checked for linearizability per controller with porcupine (timeouts resolved only towards 'held' by an exact sweep for the boolean model) and for registration invariants at quiescence, deadlock watchdog with goroutine-dump classification; (b) deterministic forced windows inside StartWatches through a parking ActiveInformers(); (c) the collector over generated XR/watch sets; (d) re-establishment after informer removal. Race reports touching crossplane frames are violations.",
+   note="Trusted: the fake informers' registration tracking; schedules under stress are not reproducible (replays regenerate the operations, not the interleaving); a clean race-detector run covers only the interleavings produced.",
+   technique="runtime monitoring: Go race detector + porcupine linearizability checking of recorded histories + quiescence invariants + forced interleaving windows", ref="3/C13"),
+ "C14": dict(cat="fault_enumeration",
+   text="Real package manager reconciler + real PackageRevisioner over sim and a fake registry, driven through edit histories (source changes incl. rollbacks, history limit incl. 0 and lowering, activation policy, pull policies, digest changes behind a tag, revision health changes) for Provider/Configuration/Function: every API-call index x 6 fault outcomes on base histories (sampled positions on random ones), retries to quiescence; a post-write hook checks <=1 Active revision on every state produced by a Crossplane write and judges every Delete (never the current revision, only the oldest, only above the limit, never with limit 0); after each completed reconcile the current digest's revision exists, has the highest number and is Active unless Manual.",
+   note="Trusted: " + SIM + "; the fake Fetcher; revisions are bound to the digest the registry answered at creation; user-produced double-Active states are not judged.",
+   technique="runtime monitoring: post-write invariant hook + fault enumeration over package edit histories", ref="3/C14"),
  "C17": dict(cat="exploration",
    text="Real MapDag/MapUpgradingDag (Init/Sort/TraceNode) on ALL digraphs over <=3 (quick) / <=4 (thorough) ids incl. self-loops and implied nodes plus random larger graphs, compared with an independent reference digraph; real resolver reconciler (3 modes: plain, upgrades, upgrades+downgrades) over sim with a fake tag fetcher against a reference version selector; real PackageDependencyManager.Resolve against a reference closure. Exhaustive for the small digraph space, sampled beyond.",
    note="Trusted: Masterminds/semver Constraints.Check/Compare as the primitive; reference digraph (Kahn), sim. Panicking reconciles (semver.MustParse on digests) are judged like error returns.",
@@ -45,6 +57,10 @@ CHECKS = {
    text="Generated connection-detail maps, XRD key filters, extraction configs and pre-existing secrets (absent, uncontrolled typed/untyped, owner-controlled, foreign-controlled, controller tampered before the claim copies) run through the real XR reconciler (both composers) and the production-wired claim reconciler (both syncers) over sim; oracle over the stored Secrets and every write addressed to a Secret (filter, provenance against a reference extraction, only-if-requested, exact copy only from a secret controlled by the bound XR, no rewrite of identical data).",
    note="Trusted: " + SIM + "; the reference extraction (from the ConnectionDetail API docs); 'identical data never rewritten' is judged on requests only when the stored data equals exactly what would be published.",
    technique="runtime monitoring: store/write-log oracle over generated secrets and ownership placements", ref="3/C09"),
+ "C10": dict(cat="exploration",
+   text="Real P&T Apply/Resolve/Render entry points and the real PTComposer (over sim) run on hundreds of thousands of generated JSON values, patches, wildcard paths and transform chains in child processes (so that a Go fatal error becomes a witness instead of killing the monitor); oracles: no panic / fatal error, source object unchanged, two evaluations agree, optional-missing is a no-op, required-missing errors, unrendered templates are never written while the others are, and transform results agree with an independent reference implementation of the documented meaning.",
+   note="Trusted: the reference transforms in c10/ref.go (written from the API documentation); behaviours the docs leave open (merge options, lenient number syntaxes, int64 overflow) are exercised for totality/purity only.",
+   technique="runtime monitoring: generated inputs against a reference oracle, crash-isolating child processes", ref="3/C10"),
  "C11": dict(cat="exploration",
    text="Real xcrd.ForCompositeResource/ForCompositeResourceClaim, XRD Validate/ValidateUpdate and the real XRD admission webhook (over sim) run on thousands of generated XRDs and (old,new) pairs; outputs compared with an independent oracle and golden machinery schemas. Held on the generated inputs.",
    note="Trusted: golden/machinery_*.json (reviewed dump of the machinery schema); the generator's schema grammar; sim accepts any CRD body on dry-run so webhook denials come only from Crossplane's validation.",
